@@ -122,3 +122,5 @@ u64 ext__ZNKSt7__cxx1112basic_stringIcSt11char_traitsIcESaIcEE12find_last_ofEPKc
 }
 extern int __verif_tid__ZTISt17bad_function_call;
 void ext__ZSt25__throw_bad_function_callv(void) { __verif_throw_std(__verif_tid__ZTISt17bad_function_call); }
+extern int __verif_tid__ZTISt8bad_cast;
+void ext___cxa_bad_cast(void) { __verif_throw_std(__verif_tid__ZTISt8bad_cast); }   /* dynamic_cast<T&> failure */
